@@ -148,6 +148,10 @@ func validateCurves(config *Configuration) error {
 				return fmt.Errorf("curve %s: unsupported function type '%s', use one of: %s", curveConfig.ID, curveConfig.Function.Type, strings.Join(supportedTypes, " | "))
 			}
 
+			if len(curveConfig.Function.Curves) <= 0 {
+				return fmt.Errorf("curve %s: function curve does not reference any curves", curveConfig.ID)
+			}
+
 			var connections []interface{}
 			for _, curve := range curveConfig.Function.Curves {
 				if curve == curveConfig.ID {
@@ -168,6 +172,10 @@ func validateCurves(config *Configuration) error {
 
 			if !sensorIdExists(curveConfig.Linear.Sensor, config) {
 				return fmt.Errorf("curve %s: no sensor definition with id '%s' found", curveConfig.ID, curveConfig.Linear.Sensor)
+			}
+
+			if curveConfig.Linear.Steps != nil && len(curveConfig.Linear.Steps) <= 0 {
+				return fmt.Errorf("curve %s: steps are defined but empty", curveConfig.ID)
 			}
 		}
 
@@ -265,7 +273,15 @@ func validateFans(config *Configuration) error {
 			return fmt.Errorf("fan %s: no curve definition with id '%s' found", fanConfig.ID, fanConfig.Curve)
 		}
 
+		if fanConfig.PwmMap != nil && len(*fanConfig.PwmMap) <= 0 {
+			return fmt.Errorf("fan %s: pwmMap is defined but empty", fanConfig.ID)
+		}
+
 		if fanConfig.ControlAlgorithm != nil {
+			if fanConfig.ControlAlgorithm.Direct == nil && fanConfig.ControlAlgorithm.Pid == nil {
+				return fmt.Errorf("fan %s: controlAlgorithm is defined but empty, use one of: direct | pid", fanConfig.ID)
+			}
+
 			if fanConfig.ControlAlgorithm.Direct != nil {
 				maxPwmChangePerCycle := fanConfig.ControlAlgorithm.Direct.MaxPwmChangePerCycle
 				if maxPwmChangePerCycle != nil && *maxPwmChangePerCycle <= 0 {
